@@ -102,11 +102,22 @@ def make_fault(cls, text):
         return StrictBackendError({"why": text})
     if cls == "TwoArg":
         return TwoArgBackendError(7, text)
+    if cls in PROTOCOL_FAULTS:
+        return PROTOCOL_FAULTS[cls](text)
     raise ValueError(cls)
 
 
-# the constructors of the last four cannot be called with one message: TypeError, AttributeError, ValueError, TypeError
-FAULT_CLASSES = ["Exception", "KeyError", "OSError", "UnicodeEncodeError", "Custom", "Response", "Strict", "TwoArg"]
+# exception classes that iteration / generator / interpreter protocols treat specially (a bare `next(it)` on an exhausted
+# iterator in backend code, `await anext(..)`, a generator closed under the handler, `sys.exit()` / Ctrl-C semantics).
+# The first two are ordinary `Exception`s; the last three are BaseExceptions that are no Exception.
+PROTOCOL_FAULTS = {"StopIteration": StopIteration, "StopAsyncIteration": StopAsyncIteration, "GeneratorExit": GeneratorExit,
+                   "SystemExit": SystemExit, "KeyboardInterrupt": KeyboardInterrupt}
+
+# the constructors of Response / Strict / TwoArg cannot be called with one message: AttributeError, ValueError, TypeError
+FAULT_CLASSES = ["Exception", "KeyError", "OSError", "UnicodeEncodeError", "Custom", "Response", "Strict", "TwoArg",
+                 "StopIteration", "StopAsyncIteration"]
+# ... and the ones `except Exception` does not catch (only used by streams that ask for them: `RunStream.base_faults`)
+BASE_FAULT_CLASSES = ["GeneratorExit", "SystemExit", "KeyboardInterrupt"]
 
 
 def canon_for_model(e):
